@@ -10,4 +10,5 @@ import (
 	_ "verif/checks/c08"
 	_ "verif/checks/cachex"
 	_ "verif/checks/c17"
+	_ "verif/checks/c20"
 )
